@@ -593,23 +593,35 @@ func runC04Instance(c *vc.Ctx, inst *C04Instance, attempt int) (inconclusive str
 			break
 		}
 	}
-	// DEL proposals that failed and were answered with the integer 0 (server/merge.go), per key
+	// DEL proposals that failed inside the merged-command path (server/merge.go logs
+	// "part of merge command error") but were NOT reported to the client as an
+	// error: log lines per (node,key) minus the DELs on that key through that
+	// node that did end with an error reply or a dead connection.
 	swallowed := map[string]int{}
 	for _, n := range cl.Nodes {
+		perKey := map[string]int{}
 		for _, l := range n.LogGrep(100000, "part of merge command error") {
 			if i := strings.Index(l, "default:"+cl.Opts.Table+":"); i >= 0 && strings.Contains(l, "ndel\\r") {
 				rest := l[i+len("default:"+cl.Opts.Table+":"):]
 				if j := strings.Index(rest, "\\r"); j > 0 {
-					swallowed[rest[:j]]++
+					perKey[rest[:j]]++
 				}
 			}
+		}
+		for _, o := range ops {
+			if o.Cmd == "del" && o.Node == n.ID && o.Status != "ok" && perKey[o.Key] > 0 {
+				perKey[o.Key]--
+			}
+		}
+		for k, v := range perKey {
+			swallowed[k] += v
 		}
 	}
 	nsw := 0
 	for _, v := range swallowed {
 		nsw += v
 	}
-	c.Ev.Count("del_errors_answered_with_0_in_node_logs", int64(nsw))
+	c.Ev.Count("del_errors_not_reported_to_client", int64(nsw))
 	// (ii)+(iii) per key accounting and linearizability
 	var verdicts []KeyVerdict
 	var vmu sync.Mutex
